@@ -18,7 +18,7 @@ let num x = int_of_string (atom x)
 let rstate_of = function
   | "lookup" -> SLookup | "pass" -> SPass | "hash" -> SHash | "error" -> SError | "restart" -> SRestart
   | "deliver" -> SDeliver | "fetch" -> SFetch | "deliver_stale" -> SDeliverStale
-  | "hit_for_pass" -> SHitForPass | "end" -> SEnd | "other" -> SOther
+  | "hit_for_pass" -> SHitForPass | "end" -> SEnd | "upgrade" -> SUpgrade | "other" -> SOther
   | s -> failwith ("bad state " ^ s)
 let action_of (s : string) : action =
   match s with
